@@ -996,6 +996,9 @@ def _two_once(case, ctx, rng, sym, cr, R, R1, R2, n):
     import mdtraj as md
     cls = ["overlap", "overlap", "overlap", "contained", "apart", "near-tangent"][int(rng.integers(6))]
     if cls == "overlap":
+        if R1 + R2 <= max(abs(R1 - R2), 0.05):
+            ctx.skip("two-sphere", "two spheres of (almost) no extent: no partial overlap to construct")
+            return
         d = float(rng.uniform(max(abs(R1 - R2), 0.05), R1 + R2))
     elif cls == "contained":
         d = float(rng.uniform(0.05, max(abs(R1 - R2), 0.051)))
